@@ -2,8 +2,9 @@
 """keep_mutant.py <ID> <mk> <demo pkg dir> : copy a confirmed sub-agent mutant from /tmp/mut/<ID>-out/<mk> into /verif/seeded/<ID>-<mk>/"""
 import sys, os, shutil, json, glob, re
 pid, mk, pkg = sys.argv[1:4]
-src = f"/tmp/mut/{pid}-out/{mk}"
-dst = f"/verif/seeded/{pid}-{mk}"
+rnd = sys.argv[4] if len(sys.argv) > 4 else ""
+src = f"/tmp/mut/{pid}-out{rnd}/{mk}"
+dst = f"/verif/seeded/{pid}-" + (f"r{rnd}" if rnd else "") + mk
 os.makedirs(dst, exist_ok=True)
 shutil.copy(f"{src}/patch.diff", dst)
 for f in glob.glob(f"{src}/zz_demo_*_test.go"):
@@ -13,7 +14,7 @@ shutil.copy(f"{src}/notes.md", dst)
 files = re.findall(r"^\+\+\+ b/(\S+)", open(f"{src}/patch.diff").read(), re.M)
 meta = {
     "property": pid,
-    "source": "independent sub-agent given only the property text and a scratch worktree",
+    "source": "independent sub-agent given only the property text and a scratch worktree" + (" (round %s: asked for less obvious changes than a first reviewer would make)" % rnd if rnd else ""),
     "files_changed": files,
     "demo": {"file": os.path.basename(glob.glob(f"{src}/zz_demo_*_test.go")[0]), "package_dir": pkg},
     "needs_to_manifest": "see notes.md",
